@@ -710,6 +710,23 @@ func c01Termination(c *Ctx, r *Report) {
 				}
 				continue
 			}
+			// the loop was re-shaped (for cond → for { … break }): a reviewed line of the same
+			// function whose witness — re-checked on this very loop — still holds carries over
+			matched := false
+			for k2, ll := range ledger {
+				if ll.used || !strings.HasPrefix(k2, fname(f)+"|") || !strings.HasPrefix(ll.arg, "[witness=") {
+					continue
+				}
+				if termWitness(c, ll.arg, l) == "" {
+					ll.used, matched = true, true
+					nLedger++
+					r.OK("loop-bounded", key, pos, true, "reviewed (as "+k2+", witness re-checked on the re-shaped loop): "+ll.arg)
+					break
+				}
+			}
+			if matched {
+				continue
+			}
 			r.Bad("loop-bounded", key, pos, fmt.Sprintf("loop in %s has no recognised bound (not a range loop, not a counter stepping towards a loop-invariant bound, not a strictly shrinking slice) and no reviewed ranking argument in ledger/termination.txt: a lint run may not terminate on some input", fname(f)))
 		}
 	}
